@@ -12,6 +12,7 @@ import copy
 import numpy as np
 
 from campaigns.history import HistoryCampaign
+from simkit import gen
 from simkit.core import Violation
 from simkit.world import Monitor, World, make_world
 
@@ -201,6 +202,10 @@ class C03Monitor(Monitor):
     def on_step_end(self, w):
         if not self.step_nonaccepted or self.ntwins >= self.MAX_TWINS or w.opts.get("is_twin"):
             return
+        if w.sc.get("edits"):
+            # after the user has edited the structure the simulation keeps the reference energy of the pre-edit structure
+            # (section 14, observation); a twin would compute a fresh one - that difference is not a discarded trial's
+            return
         if w.result.violations:
             return
         self.ntwins += 1
@@ -254,6 +259,18 @@ class C03(HistoryCampaign):
                                               f"first symptom: {first['signature'] if first else packed['foreign'][0]}\n{detail}", at).to_json()]
             packed["foreign"] = []
         return packed
+
+    def generate(self, rnd, tier, index):
+        sc = super().generate(rnd, tier, index)
+        n = len(sc["atoms"]["numbers"])
+        total = sum(s["n"] for s in sc["steps"])
+        if n and total >= 2 and sc["driver"] != "GrandCanonical" and not sc["atoms"].get("constraints") and rnd.random() < 0.12:
+            # between two runs of the same simulation the user (another driver, an optimiser, his own script) moves
+            # atoms; a trial of the second run that is not accepted must return to the configuration it started from
+            sc["steps"] = [{"n": total // 2}, {"n": total - total // 2}]
+            sc["edits"] = [{"before_segment": 1, "shift": [gen.rfloat(rnd, -0.6, 0.6, 3) for _ in range(3)],
+                            "rows": sorted(rnd.sample(range(n), rnd.randint(1, n)))}]
+        return sc
 
     def budget(self, tier):
         return {"runs": 6000, "wall_s": 170} if tier == "quick" else {"runs": 600000, "wall_s": 1500}
